@@ -179,6 +179,59 @@ def gen_pair(rng, case, how):
     return a, b
 
 
+def parse_bools(s):
+    s = s.strip()
+    if not (s.startswith("[") and s.endswith("]")):
+        raise RuntimeError(f"unexpected model output {s[:200]!r}")
+    body = s[1:-1].strip()
+    return [] if not body else [x.strip() == "true" for x in body.split(";")]
+
+
+def rebuild(d):
+    """Inverse of describe()."""
+    if d["kind"] == "dense":
+        return mk_dense([C.unhex(v) for v in d["argvals"].values()], C.unhex(d["values"]))
+    labs = sorted(d["argvals"], key=int)
+    return mk_irr([([C.unhex(g) for g in d["argvals"][k].values()], C.unhex(d["values"][k])) for k in labs])
+
+
+def replay_case(rep, col, replay):
+    """Re-run one stored case: == and the five operators on (a, b), or `in` / remove on (components, x)."""
+    run = C.CoqRun("C12", IMPORTS, shard=10)
+    if "components" in replay:
+        from FDApy.representation.functional_data import MultivariateFunctionalData
+        comps, x = [rebuild(c) for c in replay["components"]], rebuild(replay["x"])
+        if replay.get("variant") == "member":
+            x = comps[replay["required_removed_index"]]
+        t = run.add(f"(model_mem {fd_lit(x)} [" + "; ".join(fd_lit(c) for c in comps) + "])")
+        mem = run.run()[t]
+        cls, r = classify(lambda: x in MultivariateFunctionalData(list(comps)))
+        cls2, _ = classify(lambda: MultivariateFunctionalData(list(comps)).remove(x))
+        print(f"replay: model `in` = {mem}; implementation `in` -> class {cls} value {r}; remove -> class {cls2}")
+        if cls != 0 or bool(r) != mem or (cls2 == 0) != mem or cls2 not in (0, 2):
+            col.add(("replay-mv",), "replayed membership / removal case still disagrees with the model", replay)
+        return
+    a, b = rebuild(replay["a"]), (rebuild(replay["b"]) if "b" in replay else None)
+    if b is None:
+        print("replay: scalar case — re-run ./check C12 (deterministic under VERIF_SEED)")
+        return
+    t = run.add(f"(model_eq {fd_lit(a)} {fd_lit(b)})")
+    terms = []
+    for name, fn in OPS:
+        cls, r = classify(lambda: fn(a, b))
+        exact = "true" if name != "Div" else "false"
+        terms.append(f"check_binop {name} {exact} (1#1000000000000) a b {cls}%nat {result_lit(cls, r)}")
+    t2 = run.add(f"(let a := {fd_lit(a)} in let b := {fd_lit(b)} in [{'; '.join(terms)}])")
+    res = run.run(kind="raw")
+    model = res[t] == "true"
+    cls, r = classify(lambda: a == b)
+    oks = parse_bools(res[t2])
+    print(f"replay: model == is {model}; implementation == -> class {cls} value {r}; operators agree with the model: {oks}")
+    if cls != 0 or bool(r) != model or not all(oks):
+        col.add(("replay",), "replayed case still disagrees with the model", replay)
+    rep.case(("replay", snapshot(a), snapshot(b)), kind="replay")
+
+
 def classify(f):
     try:
         return 0, f()
@@ -219,7 +272,7 @@ def arithmetic(rep, col, rng, quick):
     todo = []
     cases = ["dense1d", "dense2d", "irr1d", "irr2d"]
     hows = ["ok", "ok", "ok", "type", "nobs", "npoints", "dim", "grid", "nobs1"]
-    n_pairs = 64 if quick else 800
+    n_pairs = 48 if quick else 800
     for i in range(n_pairs):
         case, how = cases[i % 4], hows[(i // 4) % len(hows)]
         a, b = gen_pair(rng, case, how)
@@ -261,7 +314,6 @@ def arithmetic(rep, col, rng, quick):
                         {"case": case, "a": describe(a), "b": describe(b), "failed": bad})
     res = run.run(kind="raw")
     for t, case, how, a, b, meta, untouched in todo:
-        from harness.c11 import parse_bools
         oks = parse_bools(res[t])
         key = ("pair", case, how, snapshot(a), snapshot(b))
         rep.case(key, nontrivial=True, kind=f"binop/{case}/{how}",
@@ -337,7 +389,6 @@ def scalars(rep, col, rng, quick):
                 col.add(("scalar-exc", type(bad).__name__, cls), f"a + {bad!r} ({type(bad).__name__}) raised something else than TypeError",
                         {"a": describe(a), "scalar": repr(bad)})
     res = run.run(kind="raw")
-    from harness.c11 import parse_bools
     for t, case, a, c, meta, untouched in todo:
         oks = parse_bools(res[t])
         rep.case(("scalar", case, snapshot(a), repr(c)), kind=f"scalar/{case}/{type(c).__name__}",
@@ -394,10 +445,10 @@ def _pick(rng, xs):
 
 
 def equality(rep, col, rng, quick):
-    run = C.CoqRun("C12", IMPORTS, shard=20)
+    run = C.CoqRun("C12", IMPORTS, shard=48)
     todo = []
     pairs = []
-    n = 10 if quick else 120
+    n = 7 if quick else 120
     for i in range(n):
         for case in ("dense1d", "dense2d", "irr1d", "irr2d"):
             a, _ = gen_pair(rng, case, "ok")
@@ -498,10 +549,11 @@ def membership(rep, col, rng, quick):
     res = run.run(kind="raw")
     import re
     for t, vname, comps, x, cls_in, r_in, cls_rm, removed in todo:
-        m = re.match(r"\(\s*(true|false)\s*,\s*\(?\s*(\d+)(?:%nat)?\s*,\s*(\d+)(?:%nat)?\s*\)?\s*\)", res[t])
+        m = re.match(r"\(\s*(true|false)\s*,\s*\(?\s*(None|Some\s+\d+)(?:%nat)?\s*,\s*(None|Some\s+\d+)(?:%nat)?\s*\)?\s*\)", res[t])
         if not m:
             raise RuntimeError(f"cannot parse model output {res[t]!r}")
-        mem, idx, rest = m.group(1) == "true", int(m.group(2)), int(m.group(3))
+        opt = lambda g: 999 if g == "None" else int(g.split()[1])
+        mem, idx, rest = m.group(1) == "true", opt(m.group(2)), opt(m.group(3))
         assert (idx == 999) == (rest == 999) and (idx == 999) == (not mem) and (rest == 999 or rest == len(comps) - 1)
         rep.case(("mem", vname, tuple(snapshot(c) for c in comps), snapshot(x)), kind=f"mv/{vname}",
                  sample={"variant": vname, "n_components": len(comps), "model_in": mem, "model_removed_index": idx})
@@ -516,7 +568,7 @@ def membership(rep, col, rng, quick):
             col.add(("in-wrong", kinds, vname), f"`x in multivariate` is {bool(r_in)} for a {vname} x; required {mem}", info)
         if removed != idx:
             rep.disagreements_checked += 1
-            what = {999: "raised ValueError (not in list)", 998: "changed the list in another way than deleting one element",
+            what = {999: "raised ValueError and left the list unchanged", 998: "changed the list in another way than deleting one element",
                     997: "raised ValueError and changed the list", 996: "raised another exception"}.get(removed, f"removed the element at position {removed}")
             col.add(("remove", kinds, vname, min(removed, 996) if removed >= 996 else "pos"),
                     f"multivariate.remove(x) {what} for a {vname} x; required: "
@@ -526,10 +578,10 @@ def membership(rep, col, rng, quick):
 def run(rep, props, replay=None):
     quick = C.tier() == "quick"
     rng = np.random.default_rng([C.seed(), 12])
-    if replay is not None:
-        print("replay: the stored operands are hex floats; re-run ./check C12 (deterministic under VERIF_SEED)")
-        return
     col = Collector(rep)
+    if replay is not None:
+        replay_case(rep, col, replay)
+        return
     arithmetic(rep, col, rng, quick)
     scalars(rep, col, rng, quick)
     equality(rep, col, rng, quick)
